@@ -164,7 +164,7 @@ def case(ctx, rng, idx, state):
 if __name__ == "__main__":
     harness.main(
         PROP, "fault_enumeration", case, setup_fn=setup,
-        tiers=dict(quick=dict(cases=48, shards=8, time=200), thorough=dict(cases=900, shards=16, time=1200)),
+        tiers=dict(quick=dict(cases=48, shards=8, time=900), thorough=dict(cases=900, shards=16, time=3000)),
         rule="generic Hermitian systems (2-3 WFs, optional AA/SS) with or without a declared (magnetic) point group, random symmetric NKdiv/NKFFT, "
              "adpt_num_iter 1-5, adpt_mesh 2-3, adpt_fac 1-4, irreducible or full, storage in {memory, allow_restart, dump_results, discard}, "
              "1-4 real static calculators (tetra on/off) plus a pseudo-random stub in a third of the cases; non-trivial = at least one cell divided "
